@@ -22,8 +22,9 @@ def reference(kind, n, edges, pat):
 
 
 def tag(case):
-    return "%s|%s|%s" % (case["kind"], "native" if case["native"] else "rank",
-                         "frame" if "frame" in case else "graph")
+    return "%s|%s|%s%s" % (case["kind"], "native" if case["native"] else "rank",
+                           "frame" if "frame" in case else "graph",
+                           "|graph-reused-after-add_edge" if case.get("warm") is not None else "")
 
 
 def post(case, s):
@@ -50,7 +51,20 @@ def post(case, s):
         edges = [tuple(e) for e in case["edges"]]
         flags = s.bool_array(len(edges))
         evars = list(flags)
-        passed = f(s, flags, c04.make_graph(n, edges), use_graph_primitive=case["native"])
+        warm = case.get("warm")
+        if warm is None or (case["kind"] == "path" and not case["native"]):
+            g = c04.make_graph(n, edges)
+        else:
+            # a Graph object that was already used by the same constraint before more edges were added
+            from cspuz import Solver as _S
+            g = graph.Graph(n)
+            for u, v in edges[:warm]:
+                g.add_edge(u, v)
+            s0 = _S()
+            f(s0, s0.bool_array(warm), g, use_graph_primitive=case["native"])
+            for u, v in edges[warm:]:
+                g.add_edge(u, v)
+        passed = f(s, flags, g, use_graph_primitive=case["native"])
         from cspuz.array import BoolArray1D
         if not isinstance(passed, BoolArray1D) or len(passed) != n:
             raise Failure("returned-array-shape|" + tag(case), observed=type(passed).__name__)
@@ -197,8 +211,10 @@ def shard_drawn(arg):
             sig, d = sorted(st2.failures.items())[0]
             raise Failure(sig, observed=d["observed"], expected=d["expected"], detail=d["case"])
 
-    strat = hs.builds(lambda g, kind, nat: dict(g, kind=kind, native=nat if kind == "cycle" else True),
-                      c09.multigraph_strategy(5, 8), hs.sampled_from(["cycle", "path"]), hs.booleans())
+    strat = hs.builds(lambda g, kind, nat, warm: dict(g, kind=kind, native=nat if kind == "cycle" else True,
+                                                     warm=None if warm is None else warm % (len(g["edges"]) + 1)),
+                      c09.multigraph_strategy(5, 8), hs.sampled_from(["cycle", "path"]), hs.booleans(),
+                      hs.one_of(hs.none(), hs.integers(0, 8)))
     hyp_search(st, strat, body, seed=seed, max_examples=n_graphs, check="c06.drawn")
     return st
 
@@ -262,7 +278,7 @@ def run(ctx):
     ctx.rule = (
         "cycle (rank and native encodings) and path (native; the rank form raises the documented "
         "RuntimeError('TODO')): every loop-free multigraph with n <= 4, m <= 5 (thorough m <= 6, n <= 5) "
-        "and Hypothesis-drawn multigraphs with n <= 5, m <= 8; every BoolGridFrame with 0 <= h,w <= 2 plus "
+        "and Hypothesis-drawn multigraphs with n <= 5, m <= 8 (a fifth of the graphs as a Graph object that the same constraint already used before more edges were added); every BoolGridFrame with 0 <= h,w <= 2 plus "
         "0xk/1xk/3x1 by fixed-pattern probing of ALL 2^m subsets, the 2x3/3x2/3x3 (thorough 3x4) frames by AllSAT "
         "projection compared with a DFS enumeration of the lattice's simple cycles; for every admitted "
         "pattern the returned array is forced to the visited vertices. non-trivial = >= 3 active edges or "
@@ -279,7 +295,10 @@ def run(ctx):
             for combo in itertools.combinations_with_replacement(pairs, m):
                 edges = [list(e) if i % 2 == 0 else [e[1], e[0]] for i, e in enumerate(combo)]
                 for kind, nat in (("cycle", False), ("cycle", True), ("path", True)):
-                    cases.append(dict(n=n, edges=edges, kind=kind, native=nat))
+                    c_ = dict(n=n, edges=edges, kind=kind, native=nat)
+                    if len(cases) % 5 == 0 and m >= 2:
+                        c_["warm"] = m // 2  # Graph object reused after add_edge
+                    cases.append(c_)
     frames = [(h, w) for h in range(0, 4) for w in range(0, 4) if not (h == 0 and w == 0)]
     if not quick:
         frames += [(3, 4), (4, 3), (1, 5), (0, 6)]
